@@ -113,6 +113,33 @@ func isSourceLine(src []rune, q string) bool {
 	return false
 }
 
+var blankAlphabet = []rune{'\r', '\n', ' ', '\t', 'A', 0x4E2D, 0x201C, 0x6CE8, 0xFF1A}
+
+func pureInBlankAlphabet(c rune) bool {
+	for _, a := range blankAlphabet {
+		if c == a {
+			return true
+		}
+	}
+	return false
+}
+
+// H_E1b_Layout: texts of up to 3 (4) characters over line ends, blanks, one
+// letter, one wide letter, a quote, 注 and ： (indentation and line structure).
+func H_E1b_Layout() {
+	N := 3
+	if zv.Tier() == 1 {
+		N = 4
+	}
+	n := zv.Choose(N) + 1
+	src := make([]rune, n)
+	for k := range src {
+		src[k] = zv.Rune("c")
+		zv.Assume(pureInBlankAlphabet(src[k]))
+	}
+	checkFrontEnd(src, "E1b")
+}
+
 // H_E2_Mutations: every prefix and every single-character deletion /
 // duplication of the parser corpus (cut position symbolic) through the whole
 // front end including error rendering.
